@@ -1,10 +1,12 @@
 use super::binding::{SoapBinding, SoapOperation};
 use crate::{
     error::{WriterError, WriterResult},
-    model::{TryFromNode, field::resolve_type},
+    model::{
+        TryFromNode,
+        field::{as_field_name, rename_keywords, resolve_type},
+    },
     reader::WriteXml,
 };
-use inflector::cases::snakecase::to_snake_case;
 use reqwest::Url;
 use std::{io, rc::Rc};
 
@@ -61,15 +63,16 @@ where
     W: io::Write,
 {
     fn write_xml(&self, writer: &mut W) -> WriterResult<()> {
-        // create a wrapping Rust struct for the service
-        writeln!(writer, "pub struct {} {{", self.name)?;
+        // create a wrapping Rust struct for the service, named after it
+        let name = rename_keywords(&self.name);
+        writeln!(writer, "pub struct {name} {{")?;
         writeln!(writer, "    pub client: reqwest::Client,")?;
         writeln!(writer, "    pub location: String,")?;
         writeln!(writer, "    pub credentials: Option<(String, String)>,")?;
         writeln!(writer, "}}")?;
 
         // create an implementation for the service
-        writeln!(writer, "impl {} {{", self.name)?;
+        writeln!(writer, "impl {name} {{")?;
         writeln!(
             writer,
             "    pub fn new(credentials: Option<(String, String)>) -> Self {{"
@@ -97,7 +100,7 @@ where
     W: io::Write,
 {
     // generate an async fn for the operation
-    let rust_fn_name = to_snake_case(operation_name);
+    let rust_fn_name = as_field_name(operation_name);
     let request_name = format!("{operation_name}InputEnvelope");
     let response_name = operation
         .output
